@@ -48,7 +48,7 @@ def alphabet(v):
         dict(type='STANDARD', curv=-1.0 / (1.7 * R), disz=p['t'][0], conic=-1.3, glass=kn2),
         dict(type='EVENASPH', curv=1.0 / (2 * R), disz=p['t'][1], parm=[0.0, 1e-5, -2e-8, 3e-11, 0.0, 0.0, 0.0, 0.0]),
         dict(type='STANDARD', curv=0.0, disz=p['t'][1]),
-        dict(type='EVENASPH', curv=0.0, disz=p['t'][0], conic=0.4, parm=[2e-4, 0.0, 1e-9, 0.0, 0.0, 0.0, 0.0, -1e-15], glass=UNKNOWN[1]),
+        dict(type='EVENASPH', curv=0.0, disz=p['t'][0], conic=0.4, parm=[2e-4, 0.0, 1e-9, 0.0, 0.0, 0.0, 0.0, -1e-15], glass=(UNKNOWN[0][0],) + UNKNOWN[1][1:]),
         dict(type='STANDARD', curv=1.0 / p['Rs'], disz=p['t'][0], glass=kn),
         dict(type='STANDARD', curv=-1.0 / (3 * R), disz=p['t'][2], conic=0.6),
     ]
@@ -71,6 +71,10 @@ def header_lattice(v):
         for ft in (0, 1):
             for fl in flists:
                 out.append(dict(aperture=ap, ftyp=(ft, 0), xfields=[0.0] * len(fl), yfields=fl, waves=wlists[2], pwav=2, gcat=['SCHOTT']))
+    # field points off the y axis (several points share a y value)
+    for xs, ys in (([0.0, 5.0, -5.0], [0.0, 0.0, 0.0]), ([0.0, 3.0, 3.0, -3.0], [0.0, 4.0, -4.0, 4.0]), ([2.0, 2.0, 1.0], [1.0, 1.0, 1.0])):
+        for ft in (0, 1):
+            out.append(dict(aperture=aps[0], ftyp=(ft, 0), xfields=xs, yfields=ys, waves=wlists[2], pwav=2, gcat=['SCHOTT']))
     for wl in wlists:
         for pw in range(1, len(wl) + 1):
             out.append(dict(aperture=aps[0], ftyp=(0, 0), xfields=[0.0, 0.0], yfields=[0.0, 5.0], waves=wl, pwav=pw, gcat=['SCHOTT']))
